@@ -24,16 +24,28 @@ type frontIn struct {
 	NoLex   bool   `json:"nolex"`
 }
 
+// lastNexts is the number of TLexer.Next calls (replays included) the last guarded function made: the work of a parse.
+var lastNexts int
+
 func guarded(budget int, f func()) (outcome string, msg string) {
 	ticks := 0
+	lastNexts = 0
+	nextBudget := 400*budget + 40000 // budget is linear in the input length; a parse that fetches tokens far more often than that does not backtrack boundedly
 	lexer.VerifTick = func() {
 		ticks++
 		if ticks > budget {
 			panic(budgetExceeded{"lexer"})
 		}
 	}
+	lexer.VerifNext = func() {
+		lastNexts++
+		if lastNexts > nextBudget {
+			panic(budgetExceeded{"parser"})
+		}
+	}
 	defer func() {
 		lexer.VerifTick = nil
+		lexer.VerifNext = nil
 		if e := recover(); e != nil {
 			if _, ok := e.(budgetExceeded); ok {
 				outcome = "hang"
@@ -120,6 +132,7 @@ func cmdFront() {
 		})
 		os.Stdout = realOut
 		p["outcome"], p["msg"] = oc, msg
+		p["nexts"] = lastNexts
 		res["parse"] = p
 		emit(w, res)
 	}
